@@ -78,6 +78,15 @@ class Model:
     def callgraph(self):
         if self._cg is None:
             cg = {}
+            # trait methods of crate-private structs (a hand-written Iterator / Stream / Future): whoever builds the struct
+            # hands it to a consumer that drives those methods
+            impl_methods = {}
+            for f in self.fb.fns.values():
+                if f.get("impl_trait") and f.get("impl_self") and f["id"] in self.fb.bodies:
+                    ty = f["impl_self"].split("<")[0].lstrip("&").strip()
+                    adt = self.fb.adts.get(ty)
+                    if adt is not None and not adt.get("public") and f["impl_trait"] not in ("std::clone::Clone", "std::fmt::Debug", "std::default::Default"):
+                        impl_methods.setdefault(ty, []).append(f["id"])
             for b in self.fb.bodies.values():
                 out = set()
                 for bb, t in b.calls():
@@ -111,6 +120,8 @@ class Model:
                     if rv["k"] == "agg" and rv["ak"] in ("closure", "coroutine", "coroutine_closure"):
                         if rv["def"] in self.fb.bodies:
                             out.add(rv["def"])
+                    if rv["k"] == "agg" and rv["ak"] == "adt" and rv.get("def") in impl_methods:
+                        out.update(impl_methods[rv["def"]])
                     if rv["k"] in ("use", "cast"):
                         fn_item(rv.get("op"))
                     elif rv["k"] == "agg":
